@@ -81,6 +81,19 @@ def run(ck):
                         "labels of that side (as C15.8): otherwise a label unpaired in one segment and paired in the other is kept by "
                         "both and scored twice")
     c15.label_characteristics(RuleView(ck, {"C15.8": "C04.12"}), "C15.8")
+    ck.clause("C04.17", "a record carries the query's length as it is (as C02.3's identity arguments): second-pass fragments are built with "
+                        "that length, and reverse-strand coordinates are mirrored about it - a truncated length scores the fragment's "
+                        "pairs in a frame shifted by the lost fraction")
+    from .c02 import header_derivation as _hd04
+    _hd04(RuleView(ck, {"C02.3": "C04.17"}, only_constructs=("AlignmentResultRow.create:queryLength", "AlignmentResultRow.create:referenceLength")), "C02.3")
+    ck.clause("C04.16", "the segments whose scores a joined record adds up were placed on one reference and one strand: records are joined "
+                        "only with equal reference and orientation (as C08.4) - pairs carried over from another reference are far off "
+                        "any diagonal of the record's reference")
+    from . import c08 as _c08_04
+    _c08_04._eligibility(ck, {}, None, rule="C04.16", wiring=False)
+    ck.clause("C04.15", "what conflict resolution takes out of a segment are exactly the positions it was told to take out (as C15.1 "
+                        ":predicate): a label of the kept part that disappears with them takes its penalty out of the Confidence")
+    c15.run(RuleView(ck, {"C15.1": "C04.15"}, only_constructs=(":predicate",)))
 
 
 # ------------------------------------------------------------------------------------------------------------ C04.1
